@@ -22,9 +22,11 @@ import (
 	"net"
 	"net/url"
 	"path/filepath"
+	"reflect"
 	"sync"
 	"testing"
 	"time"
+	"unsafe"
 
 	clientv3 "go.etcd.io/etcd/client/v3"
 	"go.etcd.io/etcd/client/v3/namespace"
@@ -151,7 +153,79 @@ type vStore struct {
 	q *vQuiesce
 }
 
-// vNewEtcdStore mirrors NewEtcdStore (same fields, same refresh-then-watch order).
+// vShape: what NewEtcdStore puts into the fields of EtcdStore that the mirror below does not
+// set itself. NewEtcdStore offers no way to hand it a client, so the store under observation is
+// assembled here; to keep that assembly equal to the constructor's even when the constructor
+// starts to initialise further fields (a cache map, a channel, a tunable), the real NewEtcdStore
+// is run once per process and every field outside the mirror's own six is reproduced generically:
+// non-nil map / chan / slice -> a fresh empty one of the same type and capacity, scalar -> the same
+// value, sync and sync/atomic structs -> zero value. A non-nil pointer, func or interface cannot be
+// reproduced: the harness then refuses to run (broken check) instead of judging a half-built store.
+var (
+	vShapeOnce sync.Once
+	vShapeErr  error
+	vShapeInit []func(dst reflect.Value)
+)
+
+var vMirrored = map[string]bool{"client": true, "metadata": true, "cancel": true, "available": true, "lastError": true, "persistMu": true}
+
+func vSettable(f reflect.Value) reflect.Value {
+	return reflect.NewAt(f.Type(), unsafe.Pointer(f.UnsafeAddr())).Elem()
+}
+
+func vLearnShape(endpoints []string) error {
+	vShapeOnce.Do(func() {
+		ctx, cancel := context.WithTimeout(context.Background(), 60*time.Second)
+		defer cancel()
+		// un-namespaced: its keyspace ("/kafscale/...") is never written by the harness workers
+		tmpl, err := NewEtcdStore(ctx, ClusterMetadata{}, EtcdStoreConfig{Endpoints: endpoints})
+		if err != nil {
+			vShapeErr = fmt.Errorf("template NewEtcdStore: %w", err)
+			return
+		}
+		defer tmpl.Close()
+		v := reflect.ValueOf(tmpl).Elem()
+		for i := 0; i < v.NumField(); i++ {
+			i, sf, fv := i, v.Type().Field(i), v.Field(i)
+			if vMirrored[sf.Name] {
+				continue
+			}
+			switch fv.Kind() {
+			case reflect.Map:
+				if !fv.IsNil() {
+					vShapeInit = append(vShapeInit, func(dst reflect.Value) { vSettable(dst.Field(i)).Set(reflect.MakeMap(sf.Type)) })
+				}
+			case reflect.Chan:
+				if !fv.IsNil() {
+					c := fv.Cap()
+					vShapeInit = append(vShapeInit, func(dst reflect.Value) { vSettable(dst.Field(i)).Set(reflect.MakeChan(sf.Type, c)) })
+				}
+			case reflect.Slice:
+				if !fv.IsNil() {
+					c := fv.Cap()
+					vShapeInit = append(vShapeInit, func(dst reflect.Value) { vSettable(dst.Field(i)).Set(reflect.MakeSlice(sf.Type, 0, c)) })
+				}
+			case reflect.Pointer, reflect.Func, reflect.Interface, reflect.UnsafePointer:
+				if !fv.IsNil() {
+					vShapeErr = fmt.Errorf("NewEtcdStore initialises EtcdStore.%s (%s) to a non-nil value that the harness's observable copy of the constructor cannot reproduce; update vNewEtcdStore", sf.Name, sf.Type)
+					return
+				}
+			case reflect.Struct, reflect.Array:
+				// mutexes, atomics, embedded helpers: their zero value is what the constructor leaves
+			default: // bool, ints, floats, string: plain configuration copied by value
+				if !fv.IsZero() {
+					val := reflect.New(sf.Type).Elem()
+					val.Set(vSettable(fv))
+					vShapeInit = append(vShapeInit, func(dst reflect.Value) { vSettable(dst.Field(i)).Set(val) })
+				}
+			}
+		}
+	})
+	return vShapeErr
+}
+
+// vNewEtcdStore mirrors NewEtcdStore (same fields, same refresh-then-watch order; fields the
+// mirror does not know are initialised the way the real constructor initialises them, see vShape).
 // ns is an etcd client namespace (go.etcd.io/etcd/client/v3/namespace: a
 // transparent key prefix) so that several harness workers can share the one
 // embedded etcd, each seeing its own empty "/kafscale/..." keyspace.
@@ -169,7 +243,14 @@ func vNewEtcdStore(ctx context.Context, endpoints []string, ns string, snapshot 
 	}
 	cli.KV = &vKV{KV: kv, q: q}
 	cli.Watcher = &vWatcher{Watcher: wa, q: q, store: func() *EtcdStore { return store }}
+	if err := vLearnShape(endpoints); err != nil {
+		_ = cli.Close()
+		return nil, err
+	}
 	store = &EtcdStore{client: cli, metadata: NewInMemoryStore(snapshot), available: 1}
+	for _, init := range vShapeInit {
+		init(reflect.ValueOf(store).Elem())
+	}
 	_ = store.refreshSnapshot(ctx)
 	store.startWatchers()
 	vs := &vStore{EtcdStore: store, q: q}
